@@ -235,7 +235,15 @@ fn(H2 + "._window_updated", params={"stream_id": "opt int"}, task="reader",
        ("window.buffers-unchanged", "map_same(self.stream_buffers, old(self.stream_buffers))", "C09"),
    ],
    props=("C04", "C09"))
-fn(H2 + "._priority_updated", params={"event": "obj h2.events:PriorityUpdated"}, task="reader", props=("C04", "C09"))
+fn(H2 + "._priority_updated", params={"event": "obj h2.events:PriorityUpdated"}, task="reader",
+   ensures=[
+       # C08 / C09 "every waiting send returns": a PRIORITY frame for a stream that is already in the
+       # tree changes where it hangs, not whether the send task may pick it -- nothing would
+       # unblock a stream whose buffer still holds data the windows allow
+       ("C09.priority.keeps-schedulability", "implies(sel(old(self.priority.has), event.stream_id), "
+        "sel(self.priority.active, event.stream_id) == sel(old(self.priority.active), event.stream_id))", "C09,C08"),
+   ],
+   props=("C04", "C09"))
 # inlined at its call sites (a pop and two awaits): what it does is judged in the task that calls it
 fn(H2 + "._close_stream", params={"stream_id": "int"}, inline=True, props=("C04", "C03"))
 # raised into stream_send, which swallows the ProtocolError family (stream ids exhausted)
@@ -271,5 +279,12 @@ fn(H2 + ".__init__", inline=True,
        # library's own capacity, not with one tied to the advertised stream concurrency (beyond
        # even that capacity: finding F4d)
        ("C09.init.priority-capacity", "self.priority.capacity >= 1000", "C09,C04"),
+       # C02 "reach the client as one well-formed response": the application's header names are
+       # lower-cased and connection-specific headers dropped by h2 on the way out, and what h2 would
+       # not accept is refused there (stream_send turns a refusal into silence: finding F2b) -- the
+       # connection is configured as a server with h2's outbound normalisation and validation on
+       ("C02.h2.config", "self.connection.config.client_side == False and self.connection.config.normalize_outbound_headers == True "
+        "and self.connection.config.validate_outbound_headers == True and self.connection.config.validate_inbound_headers == True "
+        "and self.connection.config.normalize_inbound_headers == True", "C02,C12,C04"),
    ],
    props=("C18",))
